@@ -254,6 +254,8 @@ fn optimize_message_hash<H: HashChain>(
     randomizer: &mut [u8],
     message: Option<&[u8]>,
 ) {
+    #[cfg(hbs_lms_verif_shuttle)]
+    use crate::verif_hooks::seam::{scope, unbounded};
     let message = message
         .map(|message: &[u8]| ArrayVec::try_from(message).unwrap())
         .unwrap_or_default();
@@ -298,6 +300,8 @@ fn thread_optimize_message_hash<H: HashChain>(
     fast_verify_cached: &FastVerifyCached,
     message: &ArrayVec<[u8; MAX_LMS_PUBLIC_KEY_LENGTH]>,
 ) -> (u16, ArrayVec<[u8; MAX_HASH_SIZE]>) {
+    #[cfg(hbs_lms_verif_shuttle)]
+    use crate::verif_hooks::seam::OsRng;
     let mut max_hash_iterations = 0;
 
     let mut trial_randomizer: ArrayVec<[u8; MAX_HASH_SIZE]> = ArrayVec::new();
